@@ -2,6 +2,7 @@ package main
 
 import (
 	"fmt"
+	"os"
 	"runtime"
 	"strconv"
 	"strings"
@@ -522,6 +523,12 @@ func genBody(rng *hx.Rng, depth int, gate chan struct{}) body {
 //	pending  the tasks block on a gate; Shutdown is called with pending tasks, then the gate opens
 //	restart  drain, but Shutdown(); Start() back to back between the rounds (no wait in between)
 func runCase(c runCfg) *result {
+	if inner, isDebug := strings.CutPrefix(c.mode, "debug-"); isDebug && os.Getenv("C16_DEBUG") != "1" {
+		ci := c
+		ci.mode = inner
+
+		return runInDebugProcess(c.String(), ci.String())
+	}
 	r := newResult()
 	r.lines = append(r.lines, [2]string{c.String(), "ok"})
 	rng := hx.NewRng(c.seed)
